@@ -118,6 +118,15 @@ def install() -> None:
     model.System.handleDuplicate = icontract.snapshot(snap_prev, name='prev')(  # type: ignore[method-assign]
         icontract.ensure(dup_post, error=MonitorBroken)(model.System.handleDuplicate))
 
+    # --- remember every module ever created (a module can lose its registry entry later)
+    orig_analyze = model.System.analyzeModule
+
+    def analyzeModule(self: Any, *a: Any, **k: Any) -> Any:
+        mod = orig_analyze(self, *a, **k)
+        self.__dict__.setdefault('_vf_created_modules', []).append(mod)
+        return mod
+    model.System.analyzeModule = analyzeModule  # type: ignore[method-assign]
+
     # --- count post-processing passes (R7 is only judged for systems post-processed once) -----------------
     orig_post = model.System.postProcess
 
@@ -199,11 +208,26 @@ def check_system(system: Any) -> List[Tuple[str, str]]:
         if o.parent is None and not isinstance(o, model.Module):
             out.append(('R5-root', f'{o!r} is a root but not a module'))
     # R2
+    # modules that lost their place (and their registry key) to an object re-exported under their name
+    displaced = set()
+    for o in allo.values():
+        for a in _ancestors(o):
+            if isinstance(a, model.Module) and allo.get(a.fullName()) is not a:
+                displaced.add(a.fullName())
+    for m in system.__dict__.get('_vf_created_modules', []):          # (a displaced module may have lost all its members since)
+        if allo.get(m.fullName()) is not m and not SUPERSEDED.match(m.name):
+            displaced.add(m.fullName())
     for o in reach.values():
         if is_superseded(o) or any(is_superseded(a) for a in _ancestors(o)):
             continue        # registration of superseded definitions is judged by R1
         if allo.get(o.fullName()) is not o:
-            out.append(('R2', f'{o!r} is reachable from a root but the registry maps {o.fullName()!r} to {allo.get(o.fullName())!r}'))
+            if any(a.fullName() in displaced for a in [o] + list(_ancestors(o))):
+                # the object lives under a name that a displaced module (and its members) also use: moving one of that module's
+                # members deleted the registry key both had
+                out.append(('R2-key-shared-with-member-of-displaced-module', f'{o!r} is reachable from a root but the registry maps {o.fullName()!r} to {allo.get(o.fullName())!r}: '
+                            f'a module displaced by a re-exported object of the same name had a member of that qualified name'))
+            else:
+                out.append(('R2', f'{o!r} is reachable from a root but the registry maps {o.fullName()!r} to {allo.get(o.fullName())!r}'))
     for r in system.rootobjects:
         if not isinstance(r, model.Module):
             out.append(('R5-root', f'root {r!r} is not a module'))
